@@ -47,16 +47,22 @@ Proof.
   destruct k; reflexivity.
 Qed.
 
-(* outside the grammar: what the code does on `X | None` (faithful model; recorded observation) *)
-Lemma observed_pep604 : forall c d df,
-  let f := {| resolved_type := Pep604 (Cls c); has_default := d; has_default_factory := df |} in
-  is_optional f = Ok false /\ type_endpoint f = Ok (Pep604 (Cls c)) /\ is_enum f = Raise TypeError.
-Proof. intros. repeat split; reflexivity. Qed.
-
 (* regression (repaired in /repo by 90ccf0e): taking get_args(...)[0] as the contained type of an optional field, as
    the code did before, answers NoneType for Union[None, X]; the translated code now answers X *)
 Lemma union_none_first_regression : forall c d df,
   index0 (get_args (OptionalL (Cls c))) = Ok (Builtin BNoneType)
   /\ type_endpoint {| resolved_type := OptionalL (Cls c); has_default := d; has_default_factory := df |} = Ok (Cls c)
   /\ is_builtin_type {| resolved_type := OptionalL (Cls c); has_default := d; has_default_factory := df |} = Ok false.
+Proof. intros. repeat split; reflexivity. Qed.
+
+(* regression (C17-g, repaired by 2a64235): is_optional as it was accepted typing.Union only, so `X | None`
+   (origin types.UnionType) was not optional and its endpoint was the union itself; now it is inside wf_ty *)
+Definition old_is_optional (t : ty) : bool :=
+  let origin := get_origin t in
+  if negb (origin_in origin [OUnion; OOptional]) then false
+  else if origin_eqb origin OUnion then Nat.eqb (length (get_args t)) 2 && ty_in (Builtin BNoneType) (get_args t) else true.
+Lemma pep604_regression : forall c d df,
+  let f := {| resolved_type := Pep604 (Cls c); has_default := d; has_default_factory := df |} in
+  old_is_optional (Pep604 (Cls c)) = false /\ wf_ty (Pep604 (Cls c)) = true /\
+  is_optional f = Ok true /\ type_endpoint f = Ok (Cls c) /\ kinds_of f = Ok (spec_kind (Pep604 (Cls c))).
 Proof. intros. repeat split; reflexivity. Qed.
